@@ -465,12 +465,21 @@ func (im *impostor) Transceive(cla int, ins int, p1 int, p2 int, data []byte, le
 			return append(append([]byte{0x99, 0x02, 0x90, 0x00, 0x8E, 0x08}, im.r.Bytes(8)...), 0x90, 0x00)
 		case "zero-mac":
 			return append(append([]byte{0x99, 0x02, 0x90, 0x00, 0x8E, 0x08}, make([]byte, 8)...), 0x90, 0x00)
+		case "empty-mac": // a DO8E without a value: nothing to compare
+			return []byte{0x99, 0x02, 0x90, 0x00, 0x8E, 0x00, 0x90, 0x00}
+		case "one-octet-mac": // a 1-octet MAC guess (1/256 under a prefix comparison; the same seed always guesses the same)
+			return []byte{0x99, 0x02, 0x90, 0x00, 0x8E, 0x01, im.r.Bytes(1)[0], 0x90, 0x00}
+		case "no-mac": // status object only
+			return []byte{0x99, 0x02, 0x90, 0x00, 0x90, 0x00}
+		case "long-mac": // 16 octets: a random 8-octet MAC with 8 more
+			return append(append([]byte{0x99, 0x02, 0x90, 0x00, 0x8E, 0x10}, im.r.Bytes(16)...), 0x90, 0x00)
 		}
 	}
 	return rsp
 }
 
-var strategies = []string{"wrong-key", "old-session-keys", "old-session-keys-fresh-counter", "plain-9000", "replay-previous-session", "random-mac", "zero-mac"}
+var strategies = []string{"wrong-key", "old-session-keys", "old-session-keys-fresh-counter", "plain-9000", "replay-previous-session", "random-mac", "zero-mac",
+	"empty-mac", "one-octet-mac", "no-mac", "long-mac"}
 
 func TestCAImpostor(t *testing.T) {
 	evid.RapidCheck(t, 1200, 30000, func(rt *rapid.T) {
@@ -552,9 +561,10 @@ func (r *recorder) after(_ *chipsim.Chip) []byte { return r.probe }
 // chip-authenticated (PaceCamResult).
 func TestCAMImpostor(t *testing.T) {
 	evid.RapidCheck(t, 400, 10000, func(rt *rapid.T) {
-		id := rapid.SampledFrom([]int{12, 13, 10, 15}).Draw(rt, "paramId")
+		id := rapid.SampledFrom([]int{12, 13, 10, 15, 12, 13, 10, 15, 12, 13, 10, 8, 9, 11, 14, 16, 17, 18}).Draw(rt, "paramId")
 		cp := rapid.SampledFrom([]mac.Cipher{"AES-128", "AES-192", "AES-256"}).Draw(rt, "cipher")
-		holdsKey := rapid.IntRange(0, 3).Draw(rt, "holdsKey") == 0
+		holdsKey := rapid.IntRange(0, 2).Draw(rt, "holdsKey") == 0
+		keyArr := rapid.IntRange(0, 3).Draw(rt, "cardSecurityKeys")
 		chipSeed := rapid.SliceOfN(rapid.Byte(), 16, 16).Draw(rt, "chipSeed")
 		libSeed := rapid.SliceOfN(rapid.Byte(), 16, 16).Draw(rt, "libSeed")
 		cv := ecc.ByPaceID(id)
@@ -571,7 +581,41 @@ func TestCAMImpostor(t *testing.T) {
 		oid := chipsim.PaceOID("CAM", cp)
 		main := lds.PACEInfo(oid, 2, pid)
 		cardAccess := lds.CardAccess(main)
-		secInfos := lds.SecurityInfos(main, lds.ChipAuthPubKeyInfo(lds.OidPkECDH, lds.SPKIStdDomain(id, cv.Encode(cv.ScalarBaseMult(published))), pid))
+		// EF.CardSecurity may publish several Chip Authentication keys (key-id arrangement):
+		// 0 the mapping key alone; 1 a key of another standardised curve first; 2 a generic key on the
+		// same curve first (the mapping key is the one whose key id equals the parameter id) and another
+		// curve's key last; 3 the mapping key without a key id between keys of two other curves
+		camPoint := cv.Encode(cv.ScalarBaseMult(published))
+		camInfo := lds.ChipAuthPubKeyInfo(lds.OidPkECDH, lds.SPKIStdDomain(id, camPoint), pid)
+		extra := func(label string, eid int) []byte {
+			ocv := ecc.ByPaceID(eid)
+			k := ocv.ScalarFromBytes(detrand.New(append([]byte(label), chipSeed...)).Bytes(ocv.ByteLen + 8))
+			if k.Sign() == 0 {
+				k = big.NewInt(11)
+			}
+			return ocv.Encode(ocv.ScalarBaseMult(k))
+		}
+		other, third := 12, 16
+		if id == 12 {
+			other = 10
+		}
+		if id == 16 {
+			third = 15
+		}
+		keyInfos := [][]byte{camInfo}
+		switch keyArr {
+		case 1:
+			keyInfos = [][]byte{lds.ChipAuthPubKeyInfo(lds.OidPkECDH, lds.SPKIStdDomain(other, extra("other", other)), big.NewInt(int64(other))), camInfo}
+		case 2:
+			keyInfos = [][]byte{lds.ChipAuthPubKeyInfo(lds.OidPkECDH, lds.SPKIStdDomain(id, extra("generic", id)), big.NewInt(int64(id+40))), camInfo,
+				lds.ChipAuthPubKeyInfo(lds.OidPkECDH, lds.SPKIStdDomain(other, extra("other", other)), nil)}
+		case 3:
+			keyInfos = [][]byte{lds.ChipAuthPubKeyInfo(lds.OidPkECDH, lds.SPKIStdDomain(third, extra("third", third)), big.NewInt(int64(third))),
+				lds.ChipAuthPubKeyInfo(lds.OidPkECDH, lds.SPKIStdDomain(id, camPoint), nil),
+				lds.ChipAuthPubKeyInfo(lds.OidPkECDH, lds.SPKIStdDomain(other, extra("other", other)), big.NewInt(int64(other)))}
+		}
+		evid.Count(fmt.Sprintf("cam-cardsecurity-keys-%d", keyArr), 1)
+		secInfos := lds.SecurityInfos(append([][]byte{main}, keyInfos...)...)
 		cfg := chipsim.Config{
 			MRZInfo: mrzInfo, CAN: "123456", PACE: []chipsim.PaceEntry{{OID: oid, ParamID: id}},
 			CAMKey: &chipsim.CAKey{KeyID: pid, Curve: cv, Priv: held},
@@ -590,7 +634,7 @@ func TestCAMImpostor(t *testing.T) {
 		}
 		doc.Mf.CardAccess = ca
 		res, cam, err := pace.NewPace(nfc, doc, password.NewPasswordCan("123456")).DoPACE()
-		rep := map[string]any{"paramId": id, "cipher": string(cp), "holdsKey": holdsKey, "chipSeed": hex.EncodeToString(chipSeed), "libSeed": hex.EncodeToString(libSeed)}
+		rep := map[string]any{"paramId": id, "cipher": string(cp), "holdsKey": holdsKey, "cardSecurityKeys": keyArr, "chipSeed": hex.EncodeToString(chipSeed), "libSeed": hex.EncodeToString(libSeed)}
 		if holdsKey {
 			evid.Case("cam-genuine", true, fmt.Sprintf("%d%s%x%x", id, cp, chipSeed[:4], libSeed[:4]), rep)
 			if err != nil || res == nil || !res.Success || cam == nil || !cam.Success {
